@@ -29,7 +29,7 @@ def main(pid, argv):
     ck.rule = ("(a) senders: generated parameter values (nested trees, Go maps, json.Number, json.RawMessage with whitespace, strings with NUL/quotes/control/"
                "non-BMP/invalid UTF-8, sizes up to 300 KiB in the quick tier and several MiB in the thorough tier, depth up to 2000) x reply kinds (plain, continues, error) through the service's reply marshalling "
                "and through Connection.Send into a recording connection; (b) receivers: real client <-> real service through a re-segmenting proxy (1-byte writes; "
-               "pseudo-random cuts up to 9000 bytes; pauses of 150 ms inside a frame while the receiver's context has no deadline) with frames from a few bytes to > 64 KiB in both directions; (c) the replies the service builds itself (standard errors, GetInfo, descriptions) for method strings and interface names "
+               "pseudo-random cuts up to 9000 bytes; pauses of 400 ms inside a frame while the receiver's context has no deadline) with frames from a few bytes to > 64 KiB in both directions; (c) the replies the service builds itself (standard errors, GetInfo, descriptions) for method strings and interface names "
                "with BEL, VT, DEL, NUL, ESC, U+2028, U+E0001, BOM, invalid UTF-8, and pipelined calls whose segments arrive 40 ms apart while a `more` handler is still "
                "producing its replies. distinct = distinct cases; non-trivial = value with "
                "a string or nesting")
@@ -100,11 +100,11 @@ def main(pid, argv):
             ops.append("call %d %s {71:S%s;} %d" % (1 if k else 0, m.hex(), (b"q" * psz).hex(), k + 1))
         ops.append("getinfo")
         cases.append(" | ".join(secs + ["transport " + ("proxy1" if (i % 2 == 0 and i % 3 != 0 and i % 3 != 1) or i % 6 == 5 else "proxyR")] + ops))
-    # pauses inside a frame: one quick call under a short deadline, then calls under contexts without a deadline whose replies arrive in parts 150 ms apart
+    # pauses inside a frame: one quick call under a short deadline, then calls under contexts without a deadline whose requests and replies are delivered in parts 400 ms apart, across the first call's deadline
     for i in range(48 if thorough else 12):
         secs = ["svc 76 70 31 75 -", "iface %s %s" % (S.hx(b"a.b"), S.hx(b"interface a.b\nmethod M() -> ()"))]
         ops = []
-        for mi in range(rng.choice([2, 3])):
+        for mi in range(3):
             m = b"a.b.M%d" % mi
             secs.append(S.script_text(m, [S.Step("r", "e", val="{70:S%s;,6e:D%s;}" % ((b"x" * rng.choice([3, 40, 500])).hex(), str(mi).encode().hex()))], False))
             ops.append("call 0 %s {71:S%s;} 1" % (m.hex(), (b"q" * rng.choice([0, 30])).hex()))
